@@ -40,14 +40,17 @@ class Shape:
     """layers: directory of each layer; mainname; ddirs: drop-in directories (relative to the layer dir);
     call(h, cb): script line reading the tree into handle h."""
 
-    def __init__(self, name, nlay=3, opts="", sfx="conf"):
+    def __init__(self, name, nlay=3, opts="", sfx="conf", cn="cfg"):
         self.name = name
         self.nlay = nlay
         self.opts = opts          # further items of the option string (JOIN_SAME_ENTRIES=1, PYTHON_STYLE=1): no effect on these trees
         self.sfx = sfx            # the suffix in play: every "conf" of the file, directory and argument names is replaced by it
+        self.cn = cn              # the configuration's name: every "cfg" of the file, directory and argument names is replaced by it
 
     def rn(self, s):
-        return s if self.sfx == "conf" else s.replace("conf", self.sfx)
+        if self.sfx == "conf" and self.cn == "cfg":
+            return s
+        return s.replace("cfg", "\0N").replace("conf", self.sfx).replace("\0N", self.cn)
 
     def optx(self, s):
         return hx(self.opts + ";" + s if self.opts else s)
@@ -97,7 +100,7 @@ class Shape:
 
     def decoys(self, R):
         if self.name == "config_dirs_over_global":
-            return ["file %s %s" % (hx(d + "/cfg.other.d/zz.conf"), hx("DECOY=1\n")) for d in self.layout(R)[0]]
+            return ["file %s %s" % (hx(d + "/" + self.rn("cfg.other.d") + "/zz.conf"), hx("DECOY=1\n")) for d in self.layout(R)[0]]
         return []
 
     def post(self):
@@ -113,48 +116,49 @@ class Shape:
         dc = "%s %s" % (hx(delim), hx(comment))
         if n == "std":
             return ["newopt %d %s" % (h, self.optx("ROOT_PREFIX=" + R)),
-                    "readconfig%s %d %s %s %s %s %s" % (c, h, hx("prj"), hx("/usr/lib"), hx("cfg"), hx(self.sfx), dc)]
+                    "readconfig%s %d %s %s %s %s %s" % (c, h, hx("prj"), hx("/usr/lib"), hx(self.cn), hx(self.sfx), dc)]
         if n == "dotsuffix":
             return ["newopt %d %s" % (h, self.optx("ROOT_PREFIX=" + R)),
-                    "readconfig%s %d %s %s %s %s %s" % (c, h, hx("prj"), hx("/usr/lib"), hx("cfg"), hx("." + self.sfx), dc)]
+                    "readconfig%s %d %s %s %s %s %s" % (c, h, hx("prj"), hx("/usr/lib"), hx(self.cn), hx("." + self.sfx), dc)]
         if n == "noproject":
             return ["newopt %d %s" % (h, self.optx("ROOT_PREFIX=" + R)),
-                    "readconfig%s %d - %s %s %s %s" % (c, h, hx("/usr/lib"), hx("cfg"), hx(self.sfx), dc)]
+                    "readconfig%s %d - %s %s %s %s" % (c, h, hx("/usr/lib"), hx(self.cn), hx(self.sfx), dc)]
         if n == "nosuffix":
             return ["newopt %d %s" % (h, self.optx("ROOT_PREFIX=" + R)),
-                    "readconfig%s %d %s %s %s - %s" % (c, h, hx("prj"), hx("/usr/lib"), hx("cfg"), dc)]
+                    "readconfig%s %d %s %s %s - %s" % (c, h, hx("prj"), hx("/usr/lib"), hx(self.cn), dc)]
         if n == "noname":
             return ["newopt %d %s" % (h, self.optx("ROOT_PREFIX=" + R)),
                     "readconfig%s %d %s %s - %s %s" % (c, h, hx("prj"), hx("/usr/lib"), hx(self.sfx), dc)]
         if n == "parsing_dirs":
             dirs = ":".join(R + "/p%d" % i for i in range(1, self.nlay + 1))
             return ["newopt %d %s" % (h, self.optx("PARSING_DIRS=" + dirs)),
-                    "readconfig%s %d %s %s %s %s %s" % (c, h, hx("prj"), hx("/usr/lib"), hx("cfg"), hx(self.sfx), dc)]
+                    "readconfig%s %d %s %s %s %s %s" % (c, h, hx("prj"), hx("/usr/lib"), hx(self.cn), hx(self.sfx), dc)]
         if n in ("config_dirs", "config_dirs_over_global"):
             return ["newopt %d %s" % (h, self.optx("CONFIG_DIRS=" + self.rn(".conf.d") + ":.d;ROOT_PREFIX=" + R)),
-                    "readconfig%s %d %s %s %s %s %s" % (c, h, hx("prj"), hx("/usr/lib"), hx("cfg"), hx(self.sfx), dc)]
+                    "readconfig%s %d %s %s %s %s %s" % (c, h, hx("prj"), hx("/usr/lib"), hx(self.cn), hx(self.sfx), dc)]
         if n == "set_conf_dirs":
             return ["newopt %d %s" % (h, self.optx("ROOT_PREFIX=" + R)),
-                    "readconfig%s %d %s %s %s %s %s" % (c, h, hx("prj"), hx("/usr/lib"), hx("cfg"), hx(self.sfx), dc)]
+                    "readconfig%s %d %s %s %s %s %s" % (c, h, hx("prj"), hx("/usr/lib"), hx(self.cn), hx(self.sfx), dc)]
         if n in ("readdirs", "readdirscb"):
-            return ["readdirs%s %d %s %s %s %s %s" % ("cb" if (cb or n == "readdirscb") else "", h, hx(R + "/usr/etc"), hx(R + "/etc"), hx("cfg"), hx(self.sfx), dc)]
+            return ["readdirs%s %d %s %s %s %s %s" % ("cb" if (cb or n == "readdirscb") else "", h, hx(R + "/usr/etc"), hx(R + "/etc"), hx(self.cn), hx(self.sfx), dc)]
         if n in ("readhist", "readhistcb"):
-            return ["%s %d %s %s %s %s %s" % (n, h, hx(R + "/usr/etc"), hx(R + "/etc"), hx("cfg"), hx("." + self.sfx), dc)]
+            return ["%s %d %s %s %s %s %s" % (n, h, hx(R + "/usr/etc"), hx(R + "/etc"), hx(self.cn), hx("." + self.sfx), dc)]
         if n == "readdirscb_rel":
-            return ["readdirscb %d %s %s %s %s %s" % (h, hx("usr/etc"), hx("etc"), hx("cfg"), hx(self.sfx), dc)]
+            return ["readdirscb %d %s %s %s %s %s" % (h, hx("usr/etc"), hx("etc"), hx(self.cn), hx(self.sfx), dc)]
         if n == "readhistcb_rel":
-            return ["readhistcb %d %s %s %s %s %s" % (h, hx("usr/etc"), hx("etc"), hx("cfg"), hx("." + self.sfx), dc)]
+            return ["readhistcb %d %s %s %s %s %s" % (h, hx("usr/etc"), hx("etc"), hx(self.cn), hx("." + self.sfx), dc)]
         if n in ("rc2", "rc2cb"):
             return ["newopt %d %s" % (h, self.optx("PARSING_DIRS=%s/usr/etc:%s/etc" % (R, R))),
-                    "readconfig%s %d %s - %s %s %s" % ("cb" if n == "rc2cb" else "", h, hx("prj"), hx("cfg"), hx(self.sfx), dc)]
+                    "readconfig%s %d %s - %s %s %s" % ("cb" if n == "rc2cb" else "", h, hx("prj"), hx(self.cn), hx(self.sfx), dc)]
         if n == "readdirs_nulldist":
-            return ["readdirs%s %d - %s %s %s %s" % (c, h, hx(R + "/etc"), hx("cfg"), hx(self.sfx), dc)]
+            return ["readdirs%s %d - %s %s %s %s" % (c, h, hx(R + "/etc"), hx(self.cn), hx(self.sfx), dc)]
         if n in ("readfile", "readfilecb"):
             return ["readfile%s %d %s %s" % ("cb" if n == "readfilecb" else "", h, hx(R + "/single/cfg.conf"), dc)]
         raise ValueError(n)
 
 
 SUFFIXES = ["conf", "ini", "cfg2x"]
+CFGNAMES = ["cfg", "cfg", "a.b", "cfg", "x y", "cfg", "n=1", "org.example.app"]     # (period 8 against the suffixes' 3)
 
 
 def materialise(tree, shape, R, contents=None, pd=None):
@@ -268,7 +272,7 @@ def replay_trees(exe, recs, shape, verdict, pid, check_log=True, check_order=Fal
         R = ROOT + "/t%d" % (i % 16)
         # the suffix in play rotates from case to case (conf, ini, cfg2x: different lengths): consecutive layered reads of one
         # process must not remember anything about the previous call's suffix
-        shape = Shape(shape0.name, shape0.nlay, shape0.opts, sfx=SUFFIXES[i % len(SUFFIXES)])
+        shape = Shape(shape0.name, shape0.nlay, shape0.opts, sfx=SUFFIXES[i % len(SUFFIXES)], cn=CFGNAMES[i % len(CFGNAMES)])
         t = {"main": r["main"], "drop": r["drop"], "shp": r["shp"], "dnull": r.get("dnull")}
         pdmap = {(l, n): r["pd"][l - 1][n - 1] for l in range(1, len(r["drop"]) + 1) for n in r["drop"][l - 1]} if r.get("pd") else None
         if pdmap and len(shape.layout(R)[2]) < 2:
@@ -448,7 +452,7 @@ def check_c01(exe, tier, seed, verdict):
     evals += nmix
     cov = {"states": states, "transitions": states, "traces_validated_against_impl": n,
            "evaluations": evals, "distinct_nontrivial": nn,
-           "rule": "TLC enumerates every tree: 3 layers x main {absent,regular,empty,/dev/null} x every subset of %d suffix-carrying drop-in names per layer (%d trees, all replayed through econf_readConfigWithCallback with ROOT_PREFIX) + whole name pool (dot file, names without the suffix, name not longer than the suffix) with <= %d drop-ins x %d content-shape pairs (%d trees) + parameter shapes (suffix with dot, project NULL, CONFIG_DIRS list, econf_set_conf_dirs, PARSING_DIRS with 1/2/4 layers, econf_readDirs, NULL directory, <project>.d without config name, absent suffix, project+name NULL) x covering trees. Compared: return code, unordered (section,key)->value map, callback path sequence. non-trivial = >= 2 files consulted." % (
+           "rule": "(the suffix - conf / ini / cfg2x - and the configuration's name - cfg / a.b / x y / n=1 / org.example.app - rotate from tree to tree within one driver process) TLC enumerates every tree: 3 layers x main {absent,regular,empty,/dev/null} x every subset of %d suffix-carrying drop-in names per layer (%d trees, all replayed through econf_readConfigWithCallback with ROOT_PREFIX) + whole name pool (dot file, names without the suffix, name not longer than the suffix) with <= %d drop-ins x %d content-shape pairs (%d trees) + parameter shapes (suffix with dot, project NULL, CONFIG_DIRS list, econf_set_conf_dirs, PARSING_DIRS with 1/2/4 layers, econf_readDirs, NULL directory, <project>.d without config name, absent suffix, project+name NULL) x covering trees. Compared: return code, unordered (section,key)->value map, callback path sequence. non-trivial = >= 2 files consulted." % (
                len(names), total, 2 if tier == "quick" else 3, len(shapes), total2),
            "samples": samples, "exhaustive": True,
            "trusted_base": ["TLC 1.8.0", "gcc ASan/UBSan", "drv.c materialises trees at the documented paths"]}
